@@ -225,3 +225,84 @@ func vh_C11_manager_clear() {
 		verifAssert("C11.manager.garbage-cookie-error", err != nil && kv.clearCalls == 0)
 	}
 }
+
+// vKVMap: a reliable key/value store holding every entry written to it
+type vKVMap struct {
+	m map[string][]byte
+}
+
+func (s *vKVMap) Save(_ context.Context, key string, value []byte, _ time.Duration) error {
+	s.m[key] = value
+	return nil
+}
+func (s *vKVMap) Load(_ context.Context, key string) ([]byte, error) {
+	v, ok := s.m[key]
+	if !ok {
+		return nil, vErrStore
+	}
+	return v, nil
+}
+func (s *vKVMap) Clear(_ context.Context, key string) error {
+	delete(s.m, key)
+	return nil
+}
+func (s *vKVMap) Lock(string) sessions.Lock              { return &sessions.NoOpLock{} }
+func (s *vKVMap) VerifyConnection(context.Context) error { return nil }
+
+//assume: manager.history: a reliable store that keeps every entry; two saves (arbitrary identities and creation times inside the lifetime, the second from a request carrying the first cookie or none), then load, sign-out, and replays of every cookie the browser ever held
+
+// save history: whatever was saved before under the browser's ticket -- another identity, an older
+// or a newer session -- the next request loads what the last save wrote; after sign-out no cookie
+// the browser ever held loads anything
+// verif: unwind=8 strlen=16 also=C11,C12 steps=3000000 ideal
+func vh_C10_manager_history() {
+	kv := &vKVMap{m: map[string][]byte{}}
+	opts := vOpts()
+	m := NewManager(kv, opts)
+	now := time.Now().Unix()
+	mk := func(tag string) *sessions.SessionState {
+		s := &sessions.SessionState{AccessToken: ndString(tag + "-at"), RefreshToken: ndString(tag + "-rt"), Email: ndString(tag + "-email"), User: ndString(tag + "-user")}
+		age := ndInt(tag + "-age-seconds")
+		verifAssume(age >= 0 && age <= 3600)
+		created := time.Unix(now-int64(age), 0)
+		s.CreatedAt = &created
+		return s
+	}
+	s0 := mk("s0")
+	rw0 := &vRW{}
+	verifAssert("C10.history.first-save", m.Save(rw0, vReq(), s0) == nil)
+	set0 := verifSetCookies(rw0.Header())
+	verifAssume(len(set0) == 1)
+	c0 := set0[0]
+	s1 := mk("s1")
+	rw1 := &vRW{}
+	carried := ndBool("second-save-carries-the-cookie")
+	var err1 error
+	if carried {
+		err1 = m.Save(rw1, vReq(c0), s1)
+	} else {
+		err1 = m.Save(rw1, vReq(), s1)
+	}
+	verifAssert("C10.history.second-save", err1 == nil)
+	set1 := verifSetCookies(rw1.Header())
+	// the browser's cookie after the second response (same name: replaced)
+	c1 := c0
+	if len(set1) == 1 {
+		c1 = set1[0]
+	}
+	got, err := m.Load(vReq(c1))
+	verifAssert("C10.history.loads", err == nil && got != nil)
+	if err == nil && got != nil {
+		verifReach("loaded")
+		verifAssert("C10.history.loads-the-last-saved-session", got.AccessToken == s1.AccessToken && got.RefreshToken == s1.RefreshToken && got.Email == s1.Email && got.User == s1.User)
+	}
+	if carried {
+		verifReach("ticket-carried")
+		rw2 := &vRW{}
+		verifAssert("C11.history.sign-out", m.Clear(rw2, vReq(c1)) == nil)
+		for _, c := range []*http.Cookie{c0, c1} {
+			_, lerr := m.Load(vReq(c))
+			verifAssert("C11.history.no-cookie-of-this-browser-loads-after-sign-out", lerr != nil)
+		}
+	}
+}
